@@ -263,7 +263,7 @@ def rat_is_zero(a, rel=None):
     return n.is_zero()
 
 
-IDENTITY_CALLS = {'copy', 'array', 'asarray', 'atleast_1d', 'ravel', 'float', 'int',
+IDENTITY_CALLS = {'copy', 'array', 'asarray', 'atleast_1d', 'ravel', 'float', 'int', 'list', 'tuple',
                   'astype', 'squeeze', 'flatten', 'real', 'item'}
 
 
@@ -926,16 +926,54 @@ def _iterate(self, it):
             return v
     lens = getattr(self, 'lens', {})
 
-    def length(node):
+    def resolved(node):
+        """(base key, length) of a sequence expression: the table is keyed by
+        source text or by the atom the expression evaluates to (aliases and
+        identity wrappers such as np.asarray are seen through); an opaque
+        derived sequence gets the default length and its own element atoms."""
         k = unparse(node)
         if k in lens:
-            return lens[k]
-        # self.c[i] -> generic row length
+            return self.key(node) if isinstance(
+                node, (ast.Name, ast.Attribute, ast.Subscript)) else k, lens[k]
+        if isinstance(node, ast.Subscript) and isinstance(node.slice, ast.Slice):
+            b, n = resolved(node.value)
+            if n is not None and not isinstance(b, tuple):
+                def cint(x):
+                    if x is None:
+                        return None
+                    r = self.ev(x)
+                    if isinstance(r, Rat) and r.is_const():
+                        return int(r.n.constant() / r.d.constant())
+                    raise Inconclusive('non-constant slice bound')
+                try:
+                    sl = slice(cint(node.slice.lower), cint(node.slice.upper),
+                               cint(node.slice.step))
+                except Inconclusive:
+                    return None, None
+                idx = list(range(*sl.indices(n)))
+                return tuple(self.read(f'{b}[{i}]') for i in idx), len(idx)
         if isinstance(node, ast.Subscript):
             k2 = unparse(node.value) + '[*]'
             if k2 in lens:
-                return lens[k2]
-        return None
+                return self.key(node), lens[k2]
+        try:
+            v = self.ev(node)
+        except Inconclusive:
+            return None, None
+        if isinstance(v, tuple):
+            return v, len(v)
+        if isinstance(v, Rat) and v.d == ONEP and len(v.n.d) == 1:
+            (mono, c), = v.n.d.items()
+            if c == 1 and len(mono) == 1 and mono[0][1] == 1:
+                a = mono[0][0]
+                if a in lens:
+                    return a, lens[a]
+                if '*' in lens:
+                    return a, lens['*']
+        return None, None
+
+    def length(node):
+        return resolved(node)[1]
     if isinstance(it, ast.Call) and isinstance(it.func, ast.Name):
         if it.func.id == 'range':
             vals = []
@@ -956,12 +994,18 @@ def _iterate(self, it):
                     vals.append(int(r.n.constant() / r.d.constant()))
             return [Rat.const(i) for i in range(*vals)]
         if it.func.id == 'enumerate' and it.args:
-            n = length(it.args[0])
+            base, n = resolved(it.args[0])
             if n is None:
                 return None
-            base = self.key(it.args[0])
+            if isinstance(base, tuple):
+                return [(Rat.const(i), base[i]) for i in range(n)]
             return [(Rat.const(i), self.read(f'{base}[{i}]'))
                     for i in range(n)]
+    base, n = resolved(it)
+    if n is not None:
+        if isinstance(base, tuple):
+            return list(base)
+        return [self.read(f'{base}[{i}]') for i in range(n)]
     return None
 
 
@@ -991,3 +1035,32 @@ def fn_eval(P, func, args=None, choose=None, sym=None, heap=None, inline=None,
             ev.env[p] = Rat.atom(p)
     ev.run(func.node.body)
     return ev
+
+
+def explore(run, limit=64):
+    """enumerate every combination of undecided branch decisions.
+
+    run(choose) must perform one symbolic evaluation using the given
+    choose(test, ev) callback for branches it cannot decide itself and return
+    a result; explore returns [(decisions, result)] for all decision vectors
+    (depth-first, each undecided branch taken True then False)."""
+    out = []
+    stack = [[]]
+    while stack:
+        prefix = stack.pop()
+        trace = []
+
+        def choose(test, ev, prefix=prefix, trace=trace):
+            i = len(trace)
+            if i < len(prefix):
+                d = prefix[i]
+            else:
+                d = True
+                stack.append(trace[:i] + [False])
+            trace.append(d)
+            return d
+        res = run(choose)
+        out.append((list(trace), res))
+        if len(out) > limit:
+            raise Inconclusive('too many undecided branch combinations')
+    return out
